@@ -8,11 +8,14 @@ import itertools
 import os
 from fractions import Fraction
 
+import logging
+
 import numpy as np
 
 from common import Case, errname, write_if_changed, LEAN, REPO
 
 PID = 'C05'
+logging.getLogger('nibabel').setLevel(logging.CRITICAL)      # (header conversions log their fix-ups)
 LEAN_TARGETS = ['NibabelModel.Props.C05']
 THEOREMS = [
     'Nb.C05.slice_axis_src',
@@ -36,7 +39,25 @@ THEOREMS = [
     'Nb.C05.io_orientation_valid',
     'Nb.C05.canonical_world',
     'Nb.C05.gen_consts_ok',
+    'Nb.C05.gen_value_source_ok',
+    'Nb.C05.hist_wf',
+    'Nb.C05.hist_data_spec',
+    'Nb.C05.values_history_independent',
+    'Nb.C05.values_any_history',
+    'Nb.C05.reorient_history_world',
 ]
+PENDING_FINDINGS = [{
+    'property': 'C05', 'signature': 'reorient:sequence-ornt-dim_info-typeerror', 'status': 'open',
+    'what': 'Nifti1Pair.as_reoriented(ornt) with `ornt` given as a nested list / tuple (the annotated type is '
+            'Sequence[Sequence[int]]; SpatialImage.as_reoriented and apply_orientation accept it) raises TypeError '
+            '"list indices must be integers or slices, not tuple" as soon as the header has a frequency / phase / '
+            'slice label: the dim_info remap indexes `ornt[orig_dim, 0]` without np.asarray (nifti1.py:2413); the '
+            'same call succeeds when no label is set',
+    'input': {'op': 'reor', 'shape': [1, 1, 1], 'aff': [1, 0, 0, 0, 0, 1, 0, 0, 0, 0, 1, 0],
+              'ornt': [[2, 1], [1, 1], [0, -1]], 'dim': [None, None, 0], 'cls': 'n1', 'stream': 'reorient-config',
+              'odt': 'list'},
+}]
+
 ASSUMPTIONS = [
     'hand-written Lean model of SpatialFirstSlicer / as_reoriented / orientations.py / as_closest_canonical '
     '(Model/C05.lean), tied to the code by the differential correspondence run (new shape, new affine as exact '
@@ -55,7 +76,15 @@ ASSUMPTIONS = [
     'the input header (incl. 0/0, where the header carries no transform) are not inputs of the model: the '
     'correspondence asserts on every case that the real result does not depend on them',
     'default axis labels, the identity-orientation literal, the constants of center_trans and the ornt column of '
-    'the dim_info remap are read from the working tree on every run (Generated/C05.lean, gen_consts_ok)',
+    'the dim_info remap are read from the working tree on every run (Generated/C05.lean, gen_consts_ok); the attribute '
+    'names the three operations touch on the image are read from the AST on every run and proved to contain no '
+    'cache accessor (gen_value_source_ok) - a syntactic tie, the behavioural one is the correspondence + oracle',
+    'image state (Model/C05.lean ImgSt): the data object and the get_fdata cache are modelled as lists of ORIGINAL '
+    'element numbers; the only in-place edit modelled is the C-order reversal of an array returned by get_fdata; the '
+    'numerical effect of a cast to float16/32/64 is NOT modelled (a cache entry stands for "element k rendered in dt") '
+    '- that a result voxel holds exactly the data-object value is checked by the oracle with exact value comparison '
+    'on values float32/float64 cannot hold; the model reads the cache state through the private attribute '
+    '_fdata_cache (dtype, identity with dataobj) for the correspondence',
     'Basic/PySlice is a specification of CPython slice semantics (validated by the C06 check against slice.indices)',
     'fileslice.canonical_slicers is modelled in Model/C06.lean (re-used)',
 ]
@@ -70,16 +99,41 @@ RULE = ('streams: slicer exhaustive single-axis slice triples (start/stop in [-n
         'MGH, SPM, Analyze, array or proxy re-loaded from bytes, byte-swapped), on-disk dtypes, ornt dtypes and all '
         'combinations of sform/qform code 0/non-0 (with the header fallback affine when both are 0); chain: 2-4 step '
         'histories of reorient / slice / canonicalise / reorient-to-axis-codes (io_orientation + axcodes2ornt + '
-        'ornt_transform) on one image (oracle only). A case is non-trivial unless the slicer is all-full-slices / the orientation is '
+        'ornt_transform) on one image (oracle only); *-state streams + half of the *-config/chain cases: the STATE of the '
+        'image object when the operation is called - source (array image | proxy loaded from an in-memory file map | '
+        'from a file (memory-mapped) | from a compressed file | proxy with int16 slope/intercept scaling | proxy '
+        're-wrapped with another affine), dtype x values that float32 / float64 cannot hold (odd integers above 2**24 '
+        '/ 2**53 / 2**63, top of the dtype range, large negative, non-dyadic fractions), and the calls made before '
+        '(1-3 of get_fdata(dtype=f2|f4|f8, caching=fill|unchanged) [+ in-place reversal of the returned array], '
+        'uncache()), crossed systematically with all four operations; chains also call get_fdata/uncache on the '
+        'intermediate images. A case is non-trivial unless the slicer is all-full-slices / the orientation is '
         'the identity; distinct by (op, shape, affine, index/orientation).')
 
 IMG_CLASSES = ('n1', 'n2', 'mgh', 'spm', 'n1p', 'n2p', 'mghp', 'pair', 'ana')
 # n1p / n2p / mghp = re-loaded from bytes (array proxy); pair = Nifti1Pair; ana = AnalyzeImage
 NO_DIM = ('mgh', 'spm', 'mghp', 'ana')     # classes without dim_info
 NIFTI = ('n1', 'n2', 'n1p', 'n2p', 'pair')
-OPT_KEYS = ('codes', 'dt', 'swap', 'odt')   # image configuration that must NOT influence the result:
+OPT_KEYS = ('codes', 'dt', 'swap', 'odt', 'src', 'scl', 'vals', 'hist', 'hfrom', 'ict', 'sdim', 'mm')
+# image configuration that must NOT influence the result:
 #   codes = [sform_code, qform_code] of the input header (0/0 = no transform in the header),
-#   dt = on-disk dtype, swap = byte-swapped header (proxies), odt = dtype of the `ornt` array
+#   dt = on-disk dtype, swap = byte-swapped header (proxies), odt = dtype of the `ornt` array,
+#   src = where the image comes from: 'arr' array image | 'fmap' loaded from an in-memory file map (proxy) |
+#         'file' loaded from a real file (proxy, memory-mapped) | 'gz' loaded from a compressed file (proxy),
+#   scl = 1: floating data stored as int16 with slope/intercept (a proxy WITH scaling),
+#   vals = which voxel values (all distinct): 'small' 0..n-1 | 'b24' odd integers above 2**24 (not float32
+#         values) | 'b53' odd integers above 2**53 (not float64 values) | 'hi' the top of the dtype's range |
+#         'neg' large negative | 'frac' non-dyadic fractions,
+#   hist = the calls made on the image BEFORE the operation under test (state of the object): list of
+#         'u' (uncache) | 'g<2|4|8><f|u><e|->' = get_fdata(dtype=float16/32/64, caching='fill'/'unchanged'),
+#         'e' = then reverse the returned array in place (C order)
+#   mm = 0: the file is loaded with mmap=False (src 'file'),
+#   hfrom = the header handed to the constructor comes from an image of ANOTHER class / shape / dtype,
+#   ict = spelling of the slicer index: 'bare' (a single slice, not in a tuple) | 'np' (NumPy integers as bounds),
+#   odt additionally 'list' / 'tuple' (the orientation given as nested Python sequences),
+#   sdim = dim_info (freq, phase, slice) of the image that is SLICED (labels must stay on their axes)
+SRCS = ('arr', 'fmap', 'file', 'gz')
+VALS = ('small', 'b24', 'b53', 'hi', 'neg', 'frac')
+HIST_TOKENS = ('g8f-', 'g4f-', 'g2f-', 'g8fe', 'g4fe', 'g8u-', 'g4u-', 'g8ue', 'g4ue', 'u')
 
 
 # ------------------------------------------------------------------ constants regenerated from the source
@@ -110,6 +164,19 @@ def regen():
         with open(os.path.join(REPO, 'nibabel', rel)) as f:
             return ast.parse(f.read())
     lab1, lab2, ident, csub, cdiv, dimcol = [], [], [], -1, -1, 99
+    attrs = {'reor': [], 'slicer': [], 'nreor': [], 'canon': []}
+
+    def attrs_of(fn, base):
+        """names X of every `<base>.X` in the function; base = 'self' | 'self.img' | 'img'"""
+        out = set()
+        for n in ast.walk(fn):
+            if isinstance(n, ast.Attribute):
+                try:
+                    if ast.unparse(n.value) == base:
+                        out.add(n.attr)
+                except Exception:
+                    pass
+        return sorted(out)
     try:
         t = parse('orientations.py')
         lab1 = _zip_labels(_func(t, 'ornt2axcodes'))
@@ -126,7 +193,11 @@ def regen():
         for n in ast.walk(_func(t, 'as_reoriented', 'SpatialImage')):
             if isinstance(n, ast.Call) and getattr(n.func, 'attr', None) == 'array_equal' and len(n.args) == 2:
                 ident = ast.literal_eval(n.args[1])
+        attrs['reor'] = attrs_of(_func(t, 'as_reoriented', 'SpatialImage'), 'self')
+        attrs['slicer'] = attrs_of(_func(t, '__getitem__', 'SpatialFirstSlicer'), 'self.img')
+        attrs['canon'] = attrs_of(_func(parse('funcs.py'), 'as_closest_canonical'), 'img')
         t = parse('nifti1.py')
+        attrs['nreor'] = attrs_of(_func(t, 'as_reoriented', 'Nifti1Pair'), 'self')
         for n in ast.walk(_func(t, 'as_reoriented', 'Nifti1Pair')):
             if isinstance(n, ast.Subscript) and getattr(n.value, 'id', None) == 'ornt' and \
                     isinstance(n.slice, ast.Tuple) and len(n.slice.elts) == 2 and isinstance(n.slice.elts[1], ast.Constant):
@@ -136,6 +207,8 @@ def regen():
 
     def labs(l):
         return '[' + ', '.join("('%s', '%s')" % (a, b) for a, b in l if len(a) == 1 and len(b) == 1 and a.isalnum() and b.isalnum()) + ']'
+    def strs(l):
+        return '[' + ', '.join('"%s"' % a for a in l if a.replace('_', 'a').isalnum()) + ']'
     try:
         ident_s = '[' + ', '.join('(%d, %d)' % (int(a), int(b)) for a, b in ident) + ']'
     except Exception:
@@ -153,6 +226,14 @@ def regen():
            f'def centerDiv : Int := {cdiv}\n'
            '/-- column of `ornt` read by the dim_info remap `int(ornt[orig_dim, col])` (nifti1.py) -/\n'
            f'def dimInfoCol : Nat := {dimcol}\n'
+           '/-- every attribute `self.X` that `SpatialImage.as_reoriented` touches (spatialimages.py) -/\n'
+           f'def reorientSelfAttrs : List String := {strs(attrs["reor"])}\n'
+           '/-- every attribute `self.img.X` that `SpatialFirstSlicer.__getitem__` touches (spatialimages.py) -/\n'
+           f'def slicerImgAttrs : List String := {strs(attrs["slicer"])}\n'
+           '/-- every attribute `self.X` that `Nifti1Pair.as_reoriented` touches (nifti1.py) -/\n'
+           f'def niftiReorientSelfAttrs : List String := {strs(attrs["nreor"])}\n'
+           '/-- every attribute `img.X` that `as_closest_canonical` touches (funcs.py) -/\n'
+           f'def canonicalImgAttrs : List String := {strs(attrs["canon"])}\n'
            'end Nb.C05.Gen\n')
     write_if_changed(os.path.join(LEAN, 'NibabelModel', 'Generated', 'C05.lean'), src)
     return []
@@ -253,17 +334,38 @@ def aff44(aff12):
 # ------------------------------------------------------------------ cases
 
 def _opts(data, opts):
+    irrelevant = ('odt',) if data['op'] == 'slice' else ('ict', 'sdim')
+    if data['op'] == 'chain':
+        irrelevant += ('odt',)
     for k in OPT_KEYS:
-        if opts and opts.get(k) is not None:
+        if opts and opts.get(k) is not None and k not in irrelevant:
             data[k] = opts[k]
     return tuple((k, str(data[k])) for k in OPT_KEYS if k in data)
 
 
+def state_suffix(data):
+    """(' <kind> <hist>', 'h') when the case varies the image source / values / history: the protocol line
+    then names the image kind (proxy, array, array of native floating dtype) and the history, and the model
+    answers from its image-state model; ('', '') for the plain streams"""
+    if not any(k in data for k in ('src', 'scl', 'vals', 'hist')):
+        return '', ''
+    kind = img_kind(make_img(data, dry=True))
+    return f' {kind} {";".join(data.get("hist") or []) or "-"}', 'h'
+
+
+def seq_ornt_finding(d):
+    """the orientation is a nested Python sequence and the NIfTI header carries a dim_info label"""
+    return (d.get('odt') in ('list', 'tuple') and d.get('cls', 'n1') in NIFTI and
+            any(v is not None for v in d.get('dim', [])) and not any(r is None for r in d['ornt']) and
+            d['ornt'] != [[0, 1], [1, 1], [2, 1]])
+
+
 def mk_slice(shape, aff12, idx, cls='n1', stream='slicer', opts=None):
-    line = f'C05 slice {",".join(map(str, shape))} {aff_arg(aff12)} {fmt_idx(idx)}'
     data = {'op': 'slice', 'shape': list(shape), 'aff': [int(v) for v in aff12],
             'idx': [item_to_data(i) for i in idx], 'cls': cls, 'stream': stream}
     ok = _opts(data, opts)
+    suf, h = state_suffix(data)
+    line = f'C05 {h}slice {",".join(map(str, shape))} {aff_arg(aff12)} {fmt_idx(idx)}{suf}'
     trivial = all(isinstance(i, slice) and i == slice(None) for i in idx)
     key = None if trivial else ('slice', tuple(shape), tuple(aff12), fmt_idx(idx), cls, ok)
     return Case(line, data, key, stream)
@@ -272,10 +374,13 @@ def mk_slice(shape, aff12, idx, cls='n1', stream='slicer', opts=None):
 def mk_reor(shape, aff12, ornt, dim, cls='n1', stream='reorient', opts=None):
     if cls in NO_DIM:
         dim = [None, None, None]
-    line = f'C05 reor {",".join(map(str, shape))} {aff_arg(aff12)} {ornt_arg(ornt)} {fmt_dim(dim)}'
     data = {'op': 'reor', 'shape': list(shape), 'aff': [int(v) for v in aff12], 'ornt': ornt, 'dim': list(dim),
             'cls': cls, 'stream': stream}
     ok = _opts(data, opts)
+    suf, h = state_suffix(data)
+    line = f'C05 {h}reor {",".join(map(str, shape))} {aff_arg(aff12)} {ornt_arg(ornt)} {fmt_dim(dim)}{suf}'
+    if seq_ornt_finding(data):
+        line = None        # PENDING_FINDINGS 'reorient:sequence-ornt-dim_info-typeerror': oracle only
     trivial = ornt == [[0, 1], [1, 1], [2, 1]]
     key = None if trivial else ('reor', tuple(shape), tuple(aff12), ornt_arg(ornt), fmt_dim(dim), cls, ok)
     return Case(line, data, key, stream)
@@ -312,13 +417,14 @@ def mk_canon(shape, aff12, dim, enforce, cls='n1', stream='canonical', opts=None
     if cls in NO_DIM:
         dim = [None, None, None]
     sc = scale_R(polar_R(aff44(aff12)))
-    line = None
-    if sc is not None:
-        line = (f'C05 canon {",".join(map(str, shape))} {aff_arg(aff12)} {",".join(map(str, sc[0]))} {sc[1]} '
-                f'{fmt_dim(dim)} {int(enforce)}')
     data = {'op': 'canon', 'shape': list(shape), 'aff': [int(v) for v in aff12], 'dim': list(dim),
             'enforce': int(enforce), 'cls': cls, 'stream': stream}
     ok = _opts(data, opts)
+    line = None
+    if sc is not None:
+        suf, h = state_suffix(data)
+        line = (f'C05 {h}canon {",".join(map(str, shape))} {aff_arg(aff12)} {",".join(map(str, sc[0]))} {sc[1]} '
+                f'{fmt_dim(dim)} {int(enforce)}{suf}')
     return Case(line, data, ('canon', tuple(shape), tuple(aff12), fmt_dim(dim), int(enforce), cls, ok), stream)
 
 
@@ -386,55 +492,215 @@ def case_from_data(d):
 
 # ------------------------------------------------------------------ implementation side
 
-def make_img(d):
-    """the input image of a case.  Everything except shape / affine / dim_info is CONFIGURATION the result
-    must not depend on: image class, on-disk dtype, header sform/qform codes, byte order, proxy or array"""
+_TMP = {'dir': None, 'n': 0}
+
+
+def _tmp_path(ext):
+    """a fresh file name in a per-process scratch directory (removed at exit: proxies re-open their file on
+    every read, so the files must outlive the oracle)"""
+    import atexit
+    import shutil
+    import tempfile
+    if _TMP['dir'] is None:
+        _TMP['dir'] = tempfile.mkdtemp(prefix='c05_')
+        atexit.register(shutil.rmtree, _TMP['dir'], True)
+    _TMP['n'] += 1
+    return os.path.join(_TMP['dir'], 'i%d%s' % (_TMP['n'], ext))
+
+
+def make_data(n, dt, vals):
+    """n pairwise different voxel values of dtype `dt` (exact Python integers / binary fractions)"""
+    dt = np.dtype(dt)
+    kind, size = dt.kind, dt.itemsize
+    ks = range(n)
+    if vals == 'b24' and ((kind in 'iu' and size >= 4) or (kind == 'f' and size == 8)):
+        v = [2 ** 24 + 1 + 2 * k for k in ks]                   # odd, above 2**24: no float32 holds them
+    elif vals == 'b53' and kind in 'iu' and size == 8:
+        v = [(2 ** 63 if kind == 'u' else 2 ** 53) + 1 + 2 * k for k in ks]    # no float64 holds them
+    elif vals == 'hi' and kind in 'iu' and 2 * n < int(np.iinfo(dt).max):
+        v = [int(np.iinfo(dt).max) - 2 * k for k in ks]
+    elif vals == 'neg' and kind == 'i' and size >= 4:
+        v = [-((2 ** 53 if size == 8 else 2 ** 24) + 1 + 2 * k) for k in ks]
+    elif vals == 'frac' and kind == 'f' and size >= 4:
+        v = [k + (1 / 3 if size == 8 else 0.5) for k in ks]
+    else:
+        v = list(ks)
+    return np.array(v, dtype=dt)
+
+
+def img_kind(img):
+    """protocol token of the image kind: p = proxy, a = array image, a2/a4/a8 = array image whose array has the
+    native floating dtype of that size (np.asanyarray(arr, dtype=that) is then the array itself)"""
+    a = img.dataobj
+    if not isinstance(a, np.ndarray):
+        return 'p'
+    if a.dtype.kind == 'f' and a.dtype.isnative and a.dtype.itemsize in (2, 4, 8):
+        return 'a%d' % a.dtype.itemsize
+    return 'a'
+
+
+def apply_hist(img, hist):
+    """the calls a user made on the image before the operation under test"""
+    fd = {'2': np.float16, '4': np.float32, '8': np.float64}
+    for tok in hist or []:
+        if tok == 'u':
+            img.uncache()
+            continue
+        with np.errstate(all='ignore'):
+            a = img.get_fdata(dtype=fd[tok[1]], caching={'f': 'fill', 'u': 'unchanged'}[tok[2]])
+        if tok[3] == 'e':
+            a[...] = a.ravel()[::-1].reshape(a.shape).copy()      # new[k] = old[n-1-k] in C order
+        elif tok[3] != '-':
+            raise ValueError(tok)
+
+
+def cache_tok(img):
+    c = getattr(img, '_fdata_cache', None)
+    if c is None:
+        return 'cache=none'
+    return 'cache=f%d%s' % (c.dtype.itemsize, 'a' if c is img.dataobj else '')
+
+
+def _make_img(d, dry=False):
+    """the input image of a case, BEFORE its history.  Everything except shape / affine / dim_info is
+    CONFIGURATION the result must not depend on: image class, on-disk dtype, header sform/qform codes, byte
+    order, proxy or array, where it was loaded from, the voxel values.  dry=True: never touch the disk (only
+    used to learn the image kind)"""
     import nibabel as nib
     shape = tuple(d['shape'])
     n = int(np.prod(shape))
     dt = np.dtype(d.get('dt', 'i4'))
     if dt == np.uint8 and n > 256:
         dt = np.dtype('i2')
-    data = np.arange(n).astype(dt).reshape(shape)
     aff = aff44(d['aff'])
     cls = d.get('cls', 'n1')
+    src, vals = d.get('src'), d.get('vals', 'small')
     if cls in ('mgh', 'mghp') and len(shape) <= 4:
-        if dt.str[1:] not in ('u1', 'i2', 'i4', 'f4'):
-            data = data.astype(np.int32)
-        img = nib.MGHImage(data, aff)
-        if cls == 'mghp':
+        klass, supported = nib.MGHImage, ('u1', 'i2', 'i4', 'f4')
+    elif cls in ('spm', 'ana', 'mgh', 'mghp'):
+        klass, supported = (nib.AnalyzeImage if cls == 'ana' else nib.Spm2AnalyzeImage), ('u1', 'i2', 'i4', 'f4', 'f8')
+    else:
+        klass = {'n2': nib.Nifti2Image, 'n2p': nib.Nifti2Image, 'pair': nib.Nifti1Pair}.get(cls, nib.Nifti1Image)
+        supported = None
+    if supported is not None and dt.str[1:] not in supported:
+        dt = np.dtype(np.int32)
+    scaled = bool(d.get('scl')) and src in ('fmap', 'file', 'gz') and klass not in (nib.MGHImage, nib.AnalyzeImage)
+    if scaled:
+        data = (np.arange(n) * 0.37 + 0.11).reshape(shape)     # floats, stored as int16 with slope and intercept
+    else:
+        data = make_data(n, dt, vals).reshape(shape)
+    img = None
+    if d.get('hfrom'):
+        try:
+            img = klass(data, aff, other_header(d['hfrom']))
+            if img.get_data_dtype() != data.dtype and not scaled:
+                img.set_data_dtype(data.dtype)
+        except Exception:
+            img = None          # (this class cannot adopt that header / dtype)
+    if img is None:
+        img = klass(data, aff)
+    if scaled:
+        img.set_data_dtype(np.int16)
+    if cls in NIFTI:
+        if 'dim' in d or 'sdim' in d:
+            img.header.set_dim_info(*d.get('dim', d.get('sdim')))
+        codes = d.get('codes')
+        if codes is not None:
+            # header-level setters: the image affine stays `aff`; with sform_code 0 the header's best affine is
+            # the (shear-stripped) qform or, with both 0, the shape/zoom fallback
+            hdr = img.header
+            hdr.set_sform(aff, code=int(codes[0]))
+            try:
+                hdr.set_qform(aff, code=int(codes[1]))
+            except Exception:
+                hdr['qform_code'] = int(codes[1])
+        if d.get('swap') and cls in ('n1p', 'n2p'):
+            img = klass(data, aff, img.header.as_byteswapped())
+            if scaled:
+                img.set_data_dtype(np.int16)
+    if src is None:
+        # legacy spelling of "proxy": classes n1p / n2p / mghp are re-loaded from bytes
+        if cls == 'mghp' and klass is nib.MGHImage:
             try:       # (MGH cannot serialise a 4-D shape with a trailing axis of length 1: keep the array image)
                 p = nib.MGHImage.from_bytes(img.to_bytes())
             except Exception:
                 p = None
             if p is not None and np.array_equal(p.affine, aff) and tuple(p.shape) == shape:
                 img = p
+        if cls in ('n1p', 'n2p'):
+            p = klass.from_bytes(img.to_bytes())
+            if np.array_equal(p.affine, aff) and tuple(p.shape) == shape:      # (a qform-only header reloads with a rounded affine: keep the array image)
+                img = p
         return img
-    if cls in ('spm', 'ana', 'mgh', 'mghp'):
-        if dt.str[1:] not in ('u1', 'i2', 'i4', 'f4', 'f8'):
-            data = data.astype(np.int32)
-        return (nib.AnalyzeImage if cls == 'ana' else nib.Spm2AnalyzeImage)(data, aff)
-    klass = {'n2': nib.Nifti2Image, 'n2p': nib.Nifti2Image, 'pair': nib.Nifti1Pair}.get(cls, nib.Nifti1Image)
-    img = klass(data, aff)
-    if 'dim' in d:
-        img.header.set_dim_info(*d['dim'])
-    codes = d.get('codes')
-    if codes is not None:
-        # header-level setters: the image affine stays `aff`; with sform_code 0 the header's best affine is
-        # the (shear-stripped) qform or, with both 0, the shape/zoom fallback
-        hdr = img.header
-        hdr.set_sform(aff, code=int(codes[0]))
-        try:
-            hdr.set_qform(aff, code=int(codes[1]))
-        except Exception:
-            hdr['qform_code'] = int(codes[1])
-    if d.get('swap') and cls in ('n1p', 'n2p'):
-        img = klass(data, aff, img.header.as_byteswapped())
-    if cls in ('n1p', 'n2p'):
-        p = klass.from_bytes(img.to_bytes())
-        if np.array_equal(p.affine, aff) and tuple(p.shape) == shape:      # (a qform-only header reloads with a rounded affine: keep the array image)
-            img = p
+    if src == 'arr':
+        return img
+    try:
+        if src == 'fmap' or dry:
+            fm = klass.make_file_map({k: io.BytesIO() for k in klass.make_file_map()})
+            img.to_file_map(fm)
+            p = klass.from_file_map(fm)
+        else:
+            ext = '.mgh' if klass is nib.MGHImage else '.nii' if klass in (nib.Nifti1Image, nib.Nifti2Image) else '.img'
+            if src == 'gz':
+                ext = '.mgz' if ext == '.mgh' else ext + '.gz'
+            path = _tmp_path(ext)
+            img.to_filename(path)
+            p = klass.from_filename(path, mmap=False) if d.get('mm') == 0 else klass.from_filename(path)
+        if tuple(p.shape) != shape:
+            p = None
+    except Exception:
+        p = None
+    if p is None:
+        return img                      # (not serialisable, e.g. MGH with a trailing axis of length 1)
+    if np.array_equal(p.affine, aff):
+        return p
+    # the file format cannot hold this affine (Analyze, qform-only NIfTI ...): an image made of the loaded
+    # PROXY, the wanted affine and the loaded header — `klass(other.dataobj, affine, other.header)`
+    return klass(p.dataobj, aff, p.header)
+
+
+def make_img(d, dry=False):
+    """_make_img, falling back to plain values when the configured ones do not survive the file format as
+    pairwise different values (the oracle locates source voxels through their values)"""
+    img = _make_img(d, dry)
+    if any(k in d for k in ('vals', 'scl', 'hfrom')):
+        v = np.asanyarray(img.dataobj).ravel().tolist()
+        if len(set(v)) != len(v) or any(x != x for x in v):
+            return _make_img({k: x for k, x in d.items() if k not in ('vals', 'scl', 'hfrom')}, dry)
     return img
+
+
+def other_header(kind):
+    """the header of an unrelated image: other class, shape (7,5,3,2), float32, zooms, dim_info, xform codes"""
+    import nibabel as nib
+    k = {'n1': nib.Nifti1Image, 'n2': nib.Nifti2Image, 'mgh': nib.MGHImage, 'ana': nib.AnalyzeImage,
+         'spm': nib.Spm2AnalyzeImage}[kind]
+    o = k(np.zeros((7, 5, 3, 2), dtype=np.float32), np.diag([3., 5., 7., 1.]))
+    if kind in ('n1', 'n2'):
+        o.header.set_dim_info(2, 0, 1)
+        o.header.set_qform(np.diag([3., 5., 7., 1.]), code=3)
+        o.header.set_sform(np.diag([-3., 5., 7., 1.]), code=4)
+        o.header.set_xyzt_units('mm', 'sec')
+    return o.header
+
+
+def prepare(d):
+    """(image after its history, values of its data object before the history, ... after the history)"""
+    img = make_img(d)
+    orig = np.array(np.asanyarray(img.dataobj))
+    apply_hist(img, d.get('hist'))
+    ref = np.array(np.asanyarray(img.dataobj))
+    return img, orig, ref
+
+
+def decode(arr, ref):
+    """element number (C order) in `ref` of every value of `arr`, compared EXACTLY (Python int / float
+    equality: 2**53+1 is not float(2**53), 16777217 is not float32(16777216)); -1 = no such value"""
+    lut = {}
+    for k, v in enumerate(np.asanyarray(ref).ravel().tolist()):
+        lut.setdefault(v, k)
+    arr = np.asanyarray(arr)
+    return np.array([lut.get(v, -1) for v in arr.ravel().tolist()], dtype=np.int64).reshape(arr.shape)
 
 
 def get_dim(img):
@@ -444,42 +710,64 @@ def get_dim(img):
         return [None, None, None]
 
 
-def data_list(img):
-    return [int(v) for v in np.asanyarray(img.dataobj).ravel()]
+def data_list(img, ref):
+    """the data of a result image as source element numbers (exact value match against `ref`)"""
+    return [int(v) for v in decode(np.asanyarray(img.dataobj), ref).ravel()]
+
+
+def spell_idx(idx, ict):
+    """the same index expression written differently"""
+    if ict == 'bare' and len(idx) == 1:
+        return idx[0]
+    if ict == 'np':
+        def npi(v):
+            return None if v is None else np.int64(v)
+        return tuple(slice(npi(i.start), npi(i.stop), npi(i.step)) if isinstance(i, slice) else
+                     (np.int64(i) if isinstance(i, int) else i) for i in idx)
+    return idx
+
+
+def _stateful(d):
+    return any(k in d for k in ('src', 'scl', 'vals', 'hist'))
 
 
 def impl(case):
     d = case.data
     op = d['op']
     from nibabel import orientations as ort
+    if op in ('slice', 'reor', 'canon', 'chain'):
+        img, orig, ref = prepare(d)
+        case.extra = {'img': img, 'orig': orig, 'ref': ref}
+        tail = (' ' + cache_tok(img)) if _stateful(d) else ''
     if op == 'slice':
-        img = make_img(d)
-        idx = tuple(item_from_data(i) for i in d['idx'])
-        case.extra = {'img': img}
+        idx = spell_idx(tuple(item_from_data(i) for i in d['idx']), d.get('ict'))
+        case.extra['idx_arg'] = idx
         try:
             out = img.slicer[idx]
         except (IndexError, ValueError) as e:
             return errname(e)
         case.extra['out'] = out
-        return f'ok {fmt_list(out.shape)} {fmt_aff(out.affine)} {fmt_list(data_list(out))}'
+        return f'ok {fmt_list(out.shape)} {fmt_aff(out.affine)} {fmt_list(data_list(out, orig))}{tail}'
     if op == 'reor':
-        img = make_img(d)
-        case.extra = {'img': img}
         try:
             o = ornt_np(d['ornt'])
             if d.get('odt') and not any(r is None for r in d['ornt']):
-                o = o.astype(d['odt'])
+                if d['odt'] == 'list':
+                    o = [[int(a), int(b)] for a, b in d['ornt']]
+                elif d['odt'] == 'tuple':
+                    o = tuple((int(a), int(b)) for a, b in d['ornt'])
+                else:
+                    o = o.astype(d['odt'])
+            case.extra['ornt_arg'] = o
             out = img.as_reoriented(o)
         except (ort.OrientationError, ValueError, IndexError) as e:
             return errname(e)
         case.extra['out'] = out
         dim = get_dim(out) if d.get('cls', 'n1') not in NO_DIM else [None] * 3
-        return (f'ok same={int(out is img)} {fmt_list(out.shape)} {fmt_aff(out.affine)} {fmt_list(data_list(out))} '
-                f'{fmt_dim(dim)}')
+        return (f'ok same={int(out is img)} {fmt_list(out.shape)} {fmt_aff(out.affine)} {fmt_list(data_list(out, orig))} '
+                f'{fmt_dim(dim)}{tail}')
     if op == 'canon':
         import nibabel as nib
-        img = make_img(d)
-        case.extra = {'img': img}
         o = ort.io_orientation(img.affine)
         try:
             out = nib.as_closest_canonical(img, enforce_diag=bool(d['enforce']))
@@ -488,11 +776,10 @@ def impl(case):
         case.extra['out'] = out
         dim = get_dim(out) if d.get('cls', 'n1') not in NO_DIM else [None] * 3
         return (f'ok {fmt_ornt(o)} same={int(out is img)} {fmt_list(out.shape)} {fmt_aff(out.affine)} '
-                f'{fmt_list(data_list(out))} {fmt_dim(dim)}')
+                f'{fmt_list(data_list(out, orig))} {fmt_dim(dim)}{tail}')
     if op == 'chain':
         import nibabel as nib
-        img = make_img(d)
-        case.extra = {'img': img, 'targets': []}
+        case.extra['targets'] = []
         cur = img
         try:
             for st in d['steps']:
@@ -506,13 +793,17 @@ def impl(case):
                     t = ort.ornt_transform(ort.io_orientation(cur.affine), ort.axcodes2ornt(tuple(st[1])))
                     cur = cur.as_reoriented(t)
                     case.extra['targets'].append((st[1], ''.join(ort.aff2axcodes(cur.affine))))
+                elif st[0] == 'h':         # a (non-editing) call on the intermediate image
+                    if st[1].endswith('e'):
+                        raise ValueError(st)
+                    apply_hist(cur, [st[1]])
                 else:
                     raise ValueError(st)
         except (ort.OrientationError, ValueError, IndexError, TypeError) as e:
             return errname(e)
         case.extra['out'] = cur
         dim = get_dim(cur) if d.get('cls', 'n1') not in NO_DIM else [None] * 3
-        return f'ok {fmt_list(cur.shape)} {fmt_aff(cur.affine)} {fmt_list(data_list(cur))} {fmt_dim(dim)}'
+        return f'ok {fmt_list(cur.shape)} {fmt_aff(cur.affine)} {fmt_list(data_list(cur, ref))} {fmt_dim(dim)}'
     if op == 'ioor':
         aff = np.array([[float.fromhex(v) for v in row] for row in d['aff']])
         try:
@@ -551,29 +842,55 @@ def _world(aff, ijk):
                  for r in range(3))
 
 
-def check_voxels(old_img, new_img, what):
-    """every output voxel keeps value's world position: locate the source voxel through its unique value"""
+def check_voxels(old_img, new_img, what, ref):
+    """every output voxel keeps its value and its world position.  `ref` = the values of the input image's data
+    object (np.asanyarray(img.dataobj), all different) when the operation was called: the source voxel of an
+    output voxel is located through its value, compared exactly"""
     old_shape = old_img.shape
-    new = np.asanyarray(new_img.dataobj)
+    raw = np.asanyarray(new_img.dataobj)
+    new = decode(raw, ref)
     old_aff, new_aff = np.asarray(old_img.affine, dtype=float), np.asarray(new_img.affine, dtype=float)
     if new_aff.shape != (4, 4) or list(new_aff[3]) != [0, 0, 0, 1]:
         return f'{what}: new affine is not a homogeneous 4x4: {new_aff.tolist()}'
     if tuple(new.shape) != tuple(new_img.shape):
         return f'{what}: image shape {new_img.shape} != data shape {new.shape}'
     n_old = int(np.prod(old_shape))
-    for j in np.ndindex(*new.shape):
-        v = int(new[j])
-        if not 0 <= v < n_old:
-            return f'{what}: output voxel {j} holds {v}, not a value of the input'
-        src = np.unravel_index(v, old_shape)
-        if len(j) < 3:
-            return f'{what}: output has fewer than three axes: shape {new.shape}'
-        w_new, w_old = _world(new_aff, j[:3]), _world(old_aff, src[:3])
+    if len(new.shape) < 3:
+        return f'{what}: output has fewer than three axes: shape {new.shape}'
+    flat = new.ravel()
+    lost = np.flatnonzero((flat < 0) | (flat >= n_old))
+    if lost.size:
+        j = np.unravel_index(int(lost[0]), new.shape)
+        near = np.asanyarray(ref).ravel()
+        k = int(np.argmin(np.abs(near.astype(np.longdouble) - np.longdouble(raw[j]))))
+        return (f'{what}: output voxel {tuple(int(x) for x in j)} holds {raw[j].item()!r} ({raw.dtype}), which is not '
+                f'the value of any voxel of the image data (nearest: {near[k].item()!r} ({near.dtype}) at '
+                f'{tuple(int(x) for x in np.unravel_index(k, old_shape))}): the value was not kept')
+    J = np.indices(new.shape).reshape(new.ndim, -1)[:3]                  # output voxel indices, C order
+    S = np.array(np.unravel_index(flat, old_shape))[:3]                  # their source voxels
+    integral = all(np.all(np.isfinite(a)) and np.all(a == np.rint(a)) and np.all(np.abs(a) < 2 ** 40)
+                   for a in (old_aff, new_aff))
+    if integral:           # exact in int64
+        An, Ao = new_aff.astype(np.int64), old_aff.astype(np.int64)
+        bad = np.flatnonzero(np.any(An[:3, :3] @ J + An[:3, 3:4] != Ao[:3, :3] @ S + Ao[:3, 3:4], axis=0))
+        cand = [int(bad[0])] if bad.size else []
+    else:
+        cand = range(flat.size)
+    for c in cand:         # exact rational arithmetic
+        j, src = tuple(int(x) for x in J[:, c]), tuple(int(x) for x in S[:, c])
+        w_new, w_old = _world(new_aff, j), _world(old_aff, src)
         if w_new != w_old:
-            return (f'{what}: output voxel {tuple(int(x) for x in j)} (value {v}) is at world '
-                    f'{tuple(str(x) for x in w_new)} but its source voxel {tuple(int(x) for x in src)} was at '
+            jj = np.unravel_index(c, new.shape)
+            return (f'{what}: output voxel {tuple(int(x) for x in jj)} (value {raw[jj].item()!r}) is at world '
+                    f'{tuple(str(x) for x in w_new)} but its source voxel '
+                    f'{tuple(int(x) for x in np.unravel_index(int(flat[c]), old_shape))} was at '
                     f'{tuple(str(x) for x in w_old)}')
     return None
+
+
+def same_values(a, b):
+    a, b = np.asanyarray(a), np.asanyarray(b)
+    return a.shape == b.shape and a.ravel().tolist() == b.ravel().tolist()
 
 
 def is_signed_perm(aff):
@@ -607,6 +924,14 @@ def expected_slicer_success(shape, idx):
     return True
 
 
+def state_desc(d):
+    """the state of the input image, for messages"""
+    bits = [f'{k}={d[k]}' for k in ('cls', 'dt', 'src', 'scl', 'vals') if k in d and (k != 'cls' or d[k] != 'n1')]
+    if d.get('hist'):
+        bits.append('after ' + ', '.join(d['hist']))
+    return (' [' + ' '.join(bits) + ']') if bits else ''
+
+
 def oracle(case, out):
     d = case.data
     op = d['op']
@@ -624,17 +949,25 @@ def oracle(case, out):
             return f'unexpected outcome {out[:100]}'
         if want_ok is False:
             return f'img.slicer{list(idx)} on shape {shape} returned an image where an error is documented: {out[:100]}'
-        img, new = ex['img'], ex['out']
-        ref = np.arange(int(np.prod(shape)), dtype=np.int32).reshape(shape)[idx]
-        got = np.asanyarray(new.dataobj)
-        if got.shape != ref.shape or not np.array_equal(got, ref):
-            return f'slicer data differ from NumPy indexing: shape={shape} idx={list(idx)}'
-        bad = check_voxels(img, new, f'slicer shape={shape} idx={list(idx)} affine={d["aff"]}')
+        img, new, ref = ex['img'], ex['out'], ex['ref']
+        what = f'slicer shape={shape} idx={list(idx)} affine={d["aff"]}' + state_desc(d)
+        bad = check_voxels(img, new, what, ref)
         if bad:
             return bad
-        if not np.array_equal(np.asanyarray(img.dataobj), np.arange(int(np.prod(shape))).reshape(shape)) or \
-                not np.array_equal(img.affine, aff44(d['aff'])):
+        want = np.arange(int(np.prod(shape)), dtype=np.int64).reshape(shape)[idx]
+        got = decode(np.asanyarray(new.dataobj), ref)
+        if got.shape != want.shape or not np.array_equal(got, want) or not same_values(new.dataobj, ref[idx]):
+            return f'{what}: slicer data differ from NumPy indexing of the image data'
+        if not same_values(img.dataobj, ref) or not np.array_equal(img.affine, aff44(d['aff'])):
             return 'slicer modified the original image'
+        # the second, public call site: slice_affine(idx) is the affine of slicer[idx]
+        sa = img.slicer.slice_affine(ex.get('idx_arg', idx))
+        if not np.array_equal(sa, new.affine):
+            return f'{what}: slicer.slice_affine gives {np.asarray(sa).tolist()} but the sliced image has {np.asarray(new.affine).tolist()}'
+        # frequency / phase / slice labels stay on their (spatial) axes: slicing never permutes axes
+        if d.get('cls', 'n1') in NIFTI and 'sdim' in d:
+            if get_dim(new) != list(d['sdim']) or get_dim(img) != list(d['sdim']):
+                return f'{what}: dim_info {d["sdim"]} became {get_dim(new)} (original image now {get_dim(img)})'
         return None
     if op in ('reor', 'canon'):
         shape = tuple(d['shape'])
@@ -645,26 +978,43 @@ def oracle(case, out):
                 return None if has_nan else f'as_reoriented({ornt}) raised {out} for a valid orientation'
             if has_nan:
                 return f'as_reoriented with a dropped axis returned an image: {out[:80]}'
-            what = f'as_reoriented shape={shape} ornt={ornt} affine={d["aff"]}'
+            what = f'as_reoriented shape={shape} ornt={ornt} affine={d["aff"]}' + state_desc(d)
         else:
             if ' ERR' in out or out.startswith('ERR'):
                 rzs = aff44(d['aff'])[:3, :3]
                 if abs(np.linalg.det(rzs)) > 0.5 and not d['enforce']:
                     return f'as_closest_canonical raised on a non-singular affine: {out}'
                 return None
-            what = f'as_closest_canonical shape={shape} affine={d["aff"]}'
-        img, new = ex['img'], ex['out']
-        got = np.asanyarray(new.dataobj)
-        if got.size != int(np.prod(shape)) or len(set(got.ravel().tolist())) != got.size:
-            return f'{what}: voxels lost or duplicated (output shape {got.shape})'
-        bad = check_voxels(img, new, what)
+            what = f'as_closest_canonical shape={shape} affine={d["aff"]}' + state_desc(d)
+        img, new, ref = ex['img'], ex['out'], ex['ref']
+        bad = check_voxels(img, new, what, ref)
         if bad:
             return bad
+        got = decode(np.asanyarray(new.dataobj), ref)
+        if got.size != int(np.prod(shape)) or len(set(got.ravel().tolist())) != got.size:
+            return f'{what}: voxels lost or duplicated (output shape {got.shape})'
+        if new is not img and not same_values(img.dataobj, ref):
+            return f'{what}: the data of the original image changed'
+        Jn = np.indices(got.shape).reshape(got.ndim, -1)
+        Sn = np.array(np.unravel_index(got.ravel(), shape))
+        if op == 'reor' and new is not img:
+            # the cooperating call sites: apply_orientation on the image data gives the new data, and
+            # inv_ornt_aff maps every new voxel index to the index of its source voxel
+            oa = ex.get('ornt_arg', ornt_np(d['ornt']))
+            if not same_values(ort.apply_orientation(ref, oa), new.dataobj):
+                return f'{what}: the data are not apply_orientation(data, ornt)'
+            M = np.asarray(ort.inv_ornt_aff(oa, shape), dtype=float)
+            off = np.flatnonzero(np.any(M[:3, :3] @ Jn[:3] + M[:3, 3:4] != Sn[:3], axis=0))
+            if off.size:
+                c = int(off[0])
+                return (f'{what}: inv_ornt_aff maps output voxel {tuple(int(x) for x in Jn[:3, c])} to '
+                        f'{(M[:3, :3] @ Jn[:3, c] + M[:3, 3]).tolist()}, its source is {tuple(int(x) for x in Sn[:3, c])}')
         # non-spatial axes follow their axes
-        for j in np.ndindex(*got.shape):
-            src = np.unravel_index(int(got[j]), shape)
-            if tuple(j[3:]) != tuple(int(x) for x in src[3:]):
-                return f'{what}: non-spatial index changed: output {j} holds source voxel {src}'
+        moved = np.flatnonzero(np.any(Jn[3:] != Sn[3:], axis=0)) if got.ndim == len(shape) else np.array([0])
+        if moved.size:
+            c = int(moved[0])
+            return (f'{what}: non-spatial index changed: output {tuple(int(x) for x in Jn[:, c])} holds source voxel '
+                    f'{tuple(int(x) for x in Sn[:, c])}')
         # frequency / phase / slice labels follow their axes: the labelled axis keeps its world direction
         if d.get('cls', 'n1') not in NO_DIM and new is not img:
             old_dim, new_dim = list(d['dim']), get_dim(new)
@@ -697,7 +1047,7 @@ def oracle(case, out):
                     import nibabel as nib
                     again = nib.as_closest_canonical(new)
                     if not (np.array_equal(again.affine, new.affine) and
-                            np.array_equal(np.asanyarray(again.dataobj), got)):
+                            same_values(again.dataobj, new.dataobj)):
                         return f'{what}: canonicalising twice changed the image'
                     d2 = np.diag(np.asarray(new.affine)[:3, :3] @ np.eye(3))
                     U2 = spl.polar(np.asarray(new.affine)[:3, :3] /
@@ -707,14 +1057,14 @@ def oracle(case, out):
         return None
     if op == 'chain':
         shape = tuple(d['shape'])
-        what = f'history {d["steps"]} on shape={shape} affine={d["aff"]} cls={d.get("cls")}'
+        what = f'history {d["steps"]} on shape={shape} affine={d["aff"]} cls={d.get("cls")}' + state_desc(d)
         if not out.startswith('ok '):
             return f'{what}: a step raised {out} although every step is valid on its own'
-        img, new = ex['img'], ex['out']
-        bad = check_voxels(img, new, what)
+        img, new, ref = ex['img'], ex['out'], ex['ref']
+        bad = check_voxels(img, new, what, ref)
         if bad:
             return bad
-        got = np.asanyarray(new.dataobj)
+        got = decode(np.asanyarray(new.dataobj), ref)
         if len(set(got.ravel().tolist())) != got.size:
             return f'{what}: voxels duplicated'
         only_reor = all(st[0] != 's' for st in d['steps'])
@@ -824,15 +1174,25 @@ def signature(case, what):
                     kinds.add('start-out-of-range')
                 elif c is not None and c < 0:
                     kinds.add('negative-step')
+        if 'value was not kept' in what:
+            return 'slicer:values'
+        if 'dim_info' in what:
+            return 'slicer:dim_info'
+        if 'slice_affine gives' in what:
+            return 'slicer:slice_affine-call-site'
         if 'negative-or-none-start' in kinds:
             return 'slicer:negative-or-none-start'
         return 'slicer:' + ('+'.join(sorted(kinds)) or 'in-range')
+    val = 'value was not kept' in what
+    if op == 'reor' and seq_ornt_finding(d) and 'raised ERR:TypeError' in what:
+        return 'reorient:sequence-ornt-dim_info-typeerror'
     if op == 'reor':
-        return 'reorient:' + ('dim_info' if 'label' in what else 'voxels')
+        return 'reorient:' + ('dim_info' if 'label' in what else 'values' if val else 'voxels')
     if op == 'chain':
-        return 'history:' + ('axcodes' if 'axis codes' in what else 'dim_info' if 'label' in what else 'voxels')
+        return 'history:' + ('axcodes' if 'axis codes' in what else 'dim_info' if 'label' in what else
+                             'values' if val else 'voxels')
     if op == 'canon':
-        return 'canonical:' + ('twice' if 'twice' in what or 'still has' in what else 'voxels')
+        return 'canonical:' + ('twice' if 'twice' in what or 'still has' in what else 'values' if val else 'voxels')
     return 'orientations:' + op
 
 
@@ -854,6 +1214,11 @@ def shrink_candidates(case):
         if k in d:
             dd = {kk: v for kk, v in d.items() if kk != k}
             yield case_from_data(dd)
+    if len(d.get('hist') or []) > 1:
+        for i in range(len(d['hist'])):
+            yield rebuild(hist=d['hist'][:i] + d['hist'][i + 1:])
+    if d.get('src') in ('file', 'gz'):
+        yield rebuild(src='fmap')
     if op == 'chain':
         for i in range(len(d['steps'])):
             if len(d['steps']) > 1 and not any(st[0] == 's' for st in d['steps'][i + 1:]):
@@ -993,6 +1358,7 @@ def rand_dim(rng):
 
 CODE_PAIRS = [(0, 0), (0, 1), (1, 0), (2, 0), (1, 1), (0, 2), (4, 3), (3, 4), (0, 4), (2, 2)]
 DTS = ['i4', 'i2', 'f4', 'u1', 'f8', '>i2', '>f4', 'i8', 'u2']
+BIG_DTS = ['i4', 'i8', 'u8', 'f8', 'u4', '>i4', '>f8', 'f4', 'i2', '>i8']      # dtypes that hold values float32 / float64 cannot
 
 
 def base_aff(rng, shape):
@@ -1003,7 +1369,7 @@ def base_aff(rng, shape):
             0, 0, z[2], -(z[2] * (shape[2] - 1) // 2)]
 
 
-def rand_opts(rng, cls, shape=None, force_codes=None):
+def rand_opts(rng, cls, shape=None, force_codes=None, state=False):
     """configuration that must not matter; returns (opts, aff or None)"""
     o = {}
     aff = None
@@ -1020,8 +1386,41 @@ def rand_opts(rng, cls, shape=None, force_codes=None):
     if rng.random() < 0.6:
         o['dt'] = rng.choice(DTS)
     if rng.random() < 0.4:
-        o['odt'] = rng.choice(['i8', 'i1', 'f4', 'i4'])
+        o['odt'] = rng.choice(['i8', 'i1', 'f4', 'i4', 'list', 'tuple'])
+    if rng.random() < 0.25:
+        o['hfrom'] = rng.choice(['n1', 'n2', 'mgh', 'ana', 'spm'])
+    if rng.random() < 0.3:
+        o['ict'] = rng.choice(['bare', 'np'])
+    if cls in NIFTI and rng.random() < 0.6:
+        o['sdim'] = rand_dim(rng)
+    if state:
+        o.update(rand_state(rng))
     return o, aff
+
+
+def rand_hist(rng):
+    r = rng.random()
+    k = 1 if r < 0.55 else 2 if r < 0.85 else 3
+    return [rng.choice(HIST_TOKENS) for _ in range(k)]
+
+
+def rand_state(rng, p_file=0.12):
+    """the state of the image object when the operation is called: where it comes from, which values it
+    holds, what was called on it before"""
+    o = {}
+    if rng.random() < 0.7:
+        r = rng.random()
+        o['src'] = 'file' if r < p_file / 2 else 'gz' if r < p_file else rng.choice(['arr', 'fmap', 'fmap'])
+        if o['src'] != 'arr' and rng.random() < 0.2:
+            o['scl'] = 1
+        if o['src'] == 'file' and rng.random() < 0.4:
+            o['mm'] = 0
+    if rng.random() < 0.6:
+        o['vals'] = rng.choice(VALS)
+        o['dt'] = rng.choice(BIG_DTS)
+    if rng.random() < 0.7:
+        o['hist'] = rand_hist(rng)
+    return o
 
 
 def rand_cls(rng, shape, newaxis=False):
@@ -1043,12 +1442,14 @@ def rand_ok_spatial_idx(rng, shape):
     return tuple(idx)
 
 
-def rand_chain(rng, shape):
+def rand_chain(rng, shape, hist_steps=False):
     """2-4 steps, each valid on the image it meets; returns steps (JSON-able)"""
     steps = []
     cur = np.empty(shape, dtype=np.int8)
     for _ in range(rng.choice([2, 2, 3, 3, 4])):
         r = rng.random()
+        if hist_steps and rng.random() < 0.25:      # a call on the intermediate image between two operations
+            steps.append(['h', rng.choice([t for t in HIST_TOKENS if not t.endswith('e')])])
         if r < 0.35:
             o = [list(x) for x in rng.choice(ALL48)]
             steps.append(['r', o])
@@ -1172,29 +1573,76 @@ def cases(rng, tier):
     for _ in range({'quick': 500, 'thorough': 8000, 'search': 2000}[tier]):
         shape = rand_shape(rng, cap=240)
         cls = rand_cls(rng, shape)
-        opts, aff = rand_opts(rng, cls, shape)
+        opts, aff = rand_opts(rng, cls, shape, state=rng.random() < 0.5)
         o = [list(r) for r in rng.choice(ALL48)]
         out.append(mk_reor(shape, aff or rand_aff(rng), o, rand_dim(rng), cls, 'reorient-config', opts))
     for _ in range({'quick': 300, 'thorough': 5000, 'search': 1000}[tier]):
         shape = rand_shape(rng, cap=160)
         cls = rand_cls(rng, shape)
-        opts, aff = rand_opts(rng, cls, shape)
+        opts, aff = rand_opts(rng, cls, shape, state=rng.random() < 0.5)
         out.append(mk_canon(shape, aff or rand_aff(rng), rand_dim(rng), rng.random() < 0.1, cls, 'canonical-config', opts))
     for _ in range({'quick': 500, 'thorough': 8000, 'search': 2000}[tier]):
         shape = rand_shape(rng, cap=240)
         idx = rand_slicer_idx(rng, shape) if rng.random() < 0.5 else rand_ok_spatial_idx(rng, shape)
         cls = rand_cls(rng, shape, any(i is None for i in idx))
-        opts, aff = rand_opts(rng, cls, shape)
+        opts, aff = rand_opts(rng, cls, shape, state=rng.random() < 0.5)
         out.append(mk_slice(shape, aff or rand_aff(rng), idx, cls, 'slicer-config', opts))
+    # ---------------------------------------------------------------- the STATE of the image object when the
+    # operation is called: image source (array / proxy from memory / file / compressed file / proxy with scaling)
+    # x dtype and values float32 or float64 cannot hold x what was called on the image before, for EVERY operation
+    hists = [[t] for t in HIST_TOKENS] + [['g4f-', 'u'], ['g8f-', 'g4f-'], ['g4f-', 'g8f-'], ['g4fe', 'g4f-'],
+                                          ['g8fe', 'u'], ['g4u-', 'g8fe'], ['g8fe', 'g8fe', 'g4f-'], []]
+    dt_vals = [('i4', 'b24'), ('i4', 'hi'), ('i8', 'b53'), ('i8', 'b24'), ('u8', 'b53'), ('f8', 'b24'), ('f8', 'frac'),
+               ('f4', 'frac'), ('i2', 'small'), ('>i4', 'neg'), ('u4', 'hi'), ('>f8', 'frac'), ('i8', 'neg')]
+    k = 0
+    for opn in ('reor', 'canon', 'slice', 'chain'):
+        for hist in hists:
+            for dt, vals in dt_vals:
+                k += 1
+                if quick:
+                    srcs = [('fmap', 'file', 'fmap', 'gz', 'fmap')[k % 5]] + (['arr'] if k % 3 == 0 else [])
+                else:
+                    srcs = ['fmap', 'arr', ('file', 'gz')[k % 2]]
+                for src in srcs:
+                    shape = rand_shape(rng, cap=60)
+                    nifti_only = np.dtype(dt).str[1:] in ('i8', 'u8', 'u4')
+                    cls = rng.choice(['n1', 'n1', 'n2', 'pair'] if nifti_only else
+                                     ['n1', 'n1', 'n2', 'pair', 'spm', 'ana', 'mgh'])
+                    if cls == 'mgh' and (len(shape) > 4 or np.dtype(dt).str[1:] == 'f8'):
+                        cls = 'spm'
+                    opts = {'src': src, 'dt': dt, 'vals': vals}
+                    if hist:
+                        opts['hist'] = list(hist)
+                    if src != 'arr' and rng.random() < (0.15 if quick else 0.3):
+                        opts['scl'] = 1
+                    if src == 'file' and rng.random() < 0.4:
+                        opts['mm'] = 0
+                    if rng.random() < 0.15:
+                        opts['hfrom'] = rng.choice(['n1', 'n2', 'mgh', 'ana', 'spm'])
+                    if cls in NIFTI and rng.random() < 0.3:
+                        opts['codes'] = list(rng.choice(CODE_PAIRS))
+                    if opn == 'reor':
+                        o = [list(r) for r in rng.choice(ALL48[1:])]
+                        out.append(mk_reor(shape, rand_aff(rng), o, rand_dim(rng), cls, 'reorient-state', opts))
+                    elif opn == 'canon':
+                        out.append(mk_canon(shape, rand_aff(rng, rng.choice(['oblique', 'perm'])), rand_dim(rng), False,
+                                            cls, 'canonical-state', opts))
+                    elif opn == 'slice':
+                        out.append(mk_slice(shape, rand_aff(rng), rand_ok_spatial_idx(rng, shape), cls, 'slicer-state',
+                                            opts))
+                    else:
+                        out.append(mk_chain(shape, rand_aff(rng, rng.choice(['perm', 'oblique'])), rand_dim(rng),
+                                            rand_chain(rng, shape, True), cls, 'chain-state', opts))
     # ---------------------------------------------------------------- histories (oracle only): reorient / slice /
     # canonicalise / reorient-to-axis-codes applied one after the other to the same image
     for _ in range({'quick': 500, 'thorough': 8000, 'search': 2000}[tier]):
         shape = rand_shape(rng, cap=160)
         cls = rng.choice(['n1', 'n1', 'n2', 'n1p', 'n2p', 'pair', 'spm', 'mgh'])
-        steps = rand_chain(rng, shape)
+        st = rng.random() < 0.5
+        steps = rand_chain(rng, shape, st)
         if cls == 'mgh' and len(shape) > 4:
             cls = 'spm'
-        opts, aff = rand_opts(rng, cls, shape)
+        opts, aff = rand_opts(rng, cls, shape, state=st)
         opts.pop('odt', None)
         kind = rng.choice(['perm', 'perm', 'diag', 'oblique', 'shear'])
         out.append(mk_chain(shape, aff or rand_aff(rng, kind), rand_dim(rng), steps, cls, 'chain', opts))
